@@ -309,7 +309,7 @@ package factory
 //@ implements container.Factory
 //@ requires [inv] FInv(f) && !Reg(f).HasHole
 //@ requires [nothing-in-creation] forall(n, string, !Reg(f).IC[n])
-//@ assigns RegFrame(Reg(f)), CreationFrame(), MetasPos, SortPerm, SortInv, CreatedLen, CreatedAt, Refreshed, NamesSrc, NamesPos
+//@ assigns RegFrame(Reg(f)), CreationFrame(), MetasPos, MetasKey, SortPerm, SortInv, CreatedLen, CreatedAt, Refreshed, NamesSrc, NamesPos
 //@ let c0 = CreatedLen
 //@ ensures [inv-kept] FInv(f) && !Reg(f).HasHole
 //@ ensures [eager-all-created] implies(result == nil, forall(n, string, implies(f.definitionRegistry.DefDom[n] && !IsLazy(f.definitionRegistry.Def[n]), Reg(f).L1Dom[n]), f.definitionRegistry.DefDom[n]))
